@@ -14,7 +14,12 @@ Join(p) == IF p = <<>> THEN "" ELSE IF Len(p) = 1 THEN p[1] ELSE p[1] \o "." \o 
 Dot(p, m) == IF p = <<>> THEN m ELSE Join(p) \o "." \o m
 
 Own(i) == "s" \o N2S(i)
-CM(in, i) == IF in.ms[i].it = "ren" THEN "r" \o N2S(i) ELSE "s" \o N2S(i)
+\* in.tn (optional, default FALSE): the node ab.e is a TUPLE struct (`ab.e: T as ()` in child_parents); its members name their position
+\* (#[map(k)], k = rank among the members of that node in declaration order)
+TupleNode == <<"ab", "e">>
+InTN(in, i) == ("tn" \in DOMAIN in) /\ in.tn /\ in.ms[i].path = TupleNode
+RankTN(in, i) == Cardinality({j \in 1..(i - 1) : in.ms[j].path = TupleNode})
+CM(in, i) == IF InTN(in, i) THEN N2S(RankTN(in, i)) ELSE IF in.ms[i].it = "ren" THEN "r" \o N2S(i) ELSE "s" \o N2S(i)
 Tag(i, x) == "t" \o N2S(i) \o "(" \o x \o ")"
 Leaf(in, i) == Dot(in.ms[i].path, CM(in, i))               \* where member i lives in the counterpart
 GLeaf(in, j) == Dot(in.gs[j].path, "g" \o N2S(j))
@@ -35,6 +40,7 @@ Expected(in, k, others) == IF IsFrom(k) THEN FromExp(in) ELSE IF IsIE(k) THEN IE
 Sites(in) == {i \in DOMAIN in.ms : in.ms[i].it = "expr"}
 
 WellFormed(in) == /\ Len(in.ms) >= 1
+                  /\ \A i \in DOMAIN in.ms : InTN(in, i) => in.ms[i].it \in {"none", "expr"}
                   /\ \A i, j \in DOMAIN in.ms : i # j => Leaf(in, i) # Leaf(in, j)
                   \* a leaf name must not collide with a child node name in the same struct
                   /\ \A i \in DOMAIN in.ms : Append(in.ms[i].path, CM(in, i)) \notin Nodes(in)
